@@ -55,6 +55,14 @@ def gen_file(rng):
     return stmts
 
 
+# ordinary comments, among them look-alikes of the insertion marker that are NOT markers (the marker is a comment that
+# STARTS with "# Automatic Code"): a commented-out marker, a note that mentions it, a mis-cased one
+CMT_SHAPES = ["# c%d", "## Automatic Code c%d", "# c%d", "# # Automatic Code c%d", "# c%d removed the # Automatic Code marker",
+              "# automatic code c%d", "# c%d"]
+import re as _re
+MARKER_RE = _re.compile(r"\s*# Automatic Code")
+
+
 def to_fea(stmts):
     out = []
     for s in stmts:
@@ -66,7 +74,7 @@ def to_fea(stmts):
                 if it[0] == "it":
                     body.append("    pos a a %d;" % it[1])
                 elif it[0] == "cmt":
-                    body.append("    # c%d" % it[1])
+                    body.append("    " + CMT_SHAPES[it[1] % len(CMT_SHAPES)] % it[1])
                 else:
                     body.append("    # Automatic Code")
             out.append("feature %s {\n%s\n} %s;" % (s[2], "\n".join(body), s[2]))
@@ -130,7 +138,7 @@ def run_insert(stmts, tags, feats, nl, nd):
             items = []
             for x in st.statements:
                 if isinstance(x, ast.Comment):
-                    items.append(("marker",) if x.text.strip() == "# Automatic Code" else ("cmt", int(x.text.strip()[3:])))
+                    items.append(("marker",) if MARKER_RE.match(x.text) else ("cmt", int(_re.search(r"c(\d+)", x.text).group(1))))
                 else:
                     items.append(("it", int(x.valuerecord1.xAdvance)))
             out.append(("block", nb, st.name, items)); nb += 1
@@ -187,6 +195,8 @@ USER_FEA = [
     "feature kern {\n    # Automatic Code\n} kern;\n",
     "feature kern {\n    # automatic code\n    pos A V -33;\n} kern;\n",
     "feature mark {\n    # Automatic Code\n} mark;\n",
+    "feature kern {\n    ## Automatic Code\n    pos A V -33;\n} kern;\n",
+    "feature kern {\n    pos A V -33;\n    # final values, removed the # Automatic Code marker\n} kern;\n",
     "lookup hand {\n    pos a o 5;\n} hand;\n",
 ]
 
@@ -293,8 +303,8 @@ def compile_level(ctx):
              ("acutecomb", 0x301)]
     for i in range(ctx.budget(25, 150)):
         parts = [USER_FEA[0]] if rng.random() < 0.7 else []
-        parts += rng.sample(USER_FEA[1:4] + USER_FEA[10:], rng.randint(0, 4))
-        kern_variant = rng.choice([None] + USER_FEA[4:10])
+        parts += rng.sample(USER_FEA[1:4] + [USER_FEA[10], USER_FEA[13]], rng.randint(0, 4))
+        kern_variant = rng.choice([None] + USER_FEA[4:10] + USER_FEA[11:13])
         if kern_variant:
             parts.insert(rng.randint(0, len(parts)), kern_variant)
         # a hand-written GDEF table: glyph classes, ligature carets by position or by contour point, or both
@@ -371,7 +381,7 @@ def compile_level(ctx):
             ctx.spec_failure(case, "user statements missing or reordered in the compiled feature source: %r" % (missing[:3],))
         # a hand-written kern feature without the (correctly cased) marker: nothing generated for kern
         user_kern = kern_variant is not None
-        marker = user_kern and "# Automatic Code" in kern_variant
+        marker = user_kern and bool(_re.search(r"^\s*# Automatic Code", kern_variant, _re.M))
         gen_kern_lookups = [st for st in final.statements if isinstance(st, ast.LookupBlock) and st.name.startswith("kern_")]
         if user_kern and not marker and gen_kern_lookups:
             ctx.spec_failure(case, "kern was generated although the user wrote a kern feature without the marker")
